@@ -63,6 +63,7 @@ func (tp *TaskPool) Go(f func()) {
 	}
 
 	// Else push the new task into chan/queue.
+	verifPoint("taskpool.afterForkFail")
 	atomic.AddInt64(&tp.concurrent, -1)
 	select {
 	case tp.chQqueue <- f:
